@@ -123,6 +123,9 @@ structure Cfg where
   horizon : Nat                     -- virtual time at which a run that does not end is cut
   fuel : Nat                        -- bound on loop iterations of the model (never reached in use)
 
+/-- what callback `cb` does at its `k`-th invocation -/
+def Cfg.act (c : Cfg) (cb : Cb) (k : Nat) : Act := (c.plan cb).getD k .ok
+
 /-- the `WebSocket` object held in `app.sock` -/
 structure WSock where
   idx : Nat
@@ -291,7 +294,7 @@ def bump (f : Cb → Nat) (cb : Cb) : Cb → Nat := fun x => if x = cb then f x 
 def rawCall (c : Cfg) (s : St) (cb : Cb) (args : List Arg) : St × R Unit :=
   let k := s.calls cb
   let s := ({ s with calls := bump s.calls cb }).emit (.cb cb args)
-  match (c.plan cb).getD k .ok with
+  match c.act cb k with
   | .ok => (s, .ok ())
   | .raise => (s, .exc (.user cb k))
   | .ki => (s, .exc .ki)
